@@ -41,6 +41,8 @@ def r1_metric(ctx):
     repo = ctx.repo
     f = repo.func(RQ, 'compute_constrained_path')
     n = 0
+    NET, REQ = f.params[0], f.params[1]
+    ends = endpoints(f)
     for nm in ('shortest_simple_paths', 'dijkstra_path'):
         for c in calls_to(f, {nm}):
             n += 1
@@ -48,21 +50,40 @@ def r1_metric(ctx):
             ctx.check('R1.metric', site(f, c), isinstance(w, ast.Constant) and w.value == 'weight', key(f, f'weight|{nm}'),
                       f"{nm} does not rank paths by the edge attribute 'weight' (the fibre length)", ast.unparse(c)[:120])
             args = [ast.unparse(a) for a in c.args[:3]]
-            ctx.check('R1.metric', f'{site(f, c)} endpoints', args == ['network', 'source', 'destination'], key(f, f'endpoints|{nm}'),
+            ctx.check('R1.metric', f'{site(f, c)} endpoints', args == [NET, ends.get('source'), ends.get('destination')], key(f, f'endpoints|{nm}'),
                       f'{nm} is not searched from the request source to its destination on the network', str(args))
-    # source / destination resolution
-    defs = local_defs(f.node)
-    for nm, attr in (('source', 'req.source'), ('destination', 'req.destination')):
-        d = defs.get(nm, [])
-        ok = len(d) == 1 and f'el.uid == {attr}' in ast.unparse(d[0][1]) and 'trx' in ast.unparse(d[0][1])
-        ctx.check('R1.metric', f'{site(f)} {nm}', ok, key(f, f'resolve|{nm}'),
-                  f'the {nm} of the search is not the transceiver whose uid is {attr}')
+    for nm in ('source', 'destination'):
+        ctx.check('R1.metric', f'{site(f)} {nm}', nm in ends, key(f, f'resolve|{nm}'),
+                  f'the {nm} of the search is not the transceiver whose uid is req.{nm}')
     ctx.need('R1.metric', 6)
 
 
+def endpoints(f):
+    """locals holding the source / destination transceiver: next(e for e in <transceivers of the network> if e.uid == req.source)"""
+    from ..pattern import find, bound_by
+    NET, REQ = f.params[0], f.params[1]
+    trx = {nm for nm, _, _ in bound_by(f.node, f'[V_n for V_n in {NET} if isinstance(V_n, Transceiver)]')} | \
+        {nm for nm, _, _ in bound_by(f.node, f'[V_n for V_n in {NET}.nodes() if isinstance(V_n, Transceiver)]')}
+    out = {}
+    for role in ('source', 'destination'):
+        for t in trx:
+            for nm, _, _ in bound_by(f.node, f'next((V_e for V_e in {t} if V_e.uid == {REQ}.{role}))'):
+                out[role] = nm
+    return out
+
+
 def r2_outcomes(ctx):
+    from ..pattern import find, bound_by, mstmt, mexpr
     repo = ctx.repo
     f = repo.func(RQ, 'compute_constrained_path')
+    NET, REQ = f.params[0], f.params[1]
+    ends = endpoints(f)
+    # the resolved include list: V = [] ; for n in req.nodes_list[:-1]: V.append(next(e for e in network if e.uid == n))
+    incl = None
+    for lp in [n for n in walk_no_nested(f.node) if isinstance(n, ast.For)]:
+        b = mstmt(f'for V_node in {REQ}.nodes_list[:-1]:\n    V_nl.append(next((V_e for V_e in {NET} if V_e.uid == V_node)))', lp)
+        if b is not None and any(mstmt('V_nl = []', x, {'V_nl': b['V_nl']}) is not None for x in f.node.body):
+            incl = b['V_nl']
     tries = [n for n in walk_no_nested(f.node) if isinstance(n, ast.Try)]
     if len(tries) != 1:
         raise CannotAnalyse('compute_constrained_path: expected one try around the searches')
@@ -72,18 +93,19 @@ def r2_outcomes(ctx):
     # constrained result = first element of generator passing ispart
     nx = [c for c in calls_to(f, {'next'}) if any(c is x for x in ast.walk(t))]
     ok = False
+    result = None
     if nx:
         g0 = nx[0].args[0]
-        ok = isinstance(g0, ast.GeneratorExp) and len(g0.generators) == 1 and len(g0.generators[0].ifs) == 1 and \
-            ast.unparse(g0.generators[0].ifs[0]).startswith('ispart(nodes_list, ') and ast.unparse(g0.elt) == g0.generators[0].target.id \
-            and isinstance(g0.generators[0].iter, ast.Name)
+        b = mexpr(f'(V_p for V_p in V_gen if ispart({incl}, V_p))', g0) if incl else None
         gen = stmt_of(f, calls_to(f, {'shortest_simple_paths'})[0])
-        ok = ok and isinstance(gen, ast.Assign) and gen.targets[0].id == g0.generators[0].iter.id and len(nx[0].args) == 1
+        ok = b is not None and isinstance(gen, ast.Assign) and gen.targets[0].id == b['V_gen'] and len(nx[0].args) == 1
+        st_nx = stmt_of(f, nx[0])
+        result = st_nx.targets[0].id if isinstance(st_nx, ast.Assign) and isinstance(st_nx.targets[0], ast.Name) else None
     ctx.check('R2.outcomes', f'{s} first passing path', bool(ok), key(f, 'first-passing'),
               'the constrained route is not the FIRST path of the length-ordered generator that contains the include nodes in order')
     h = hs.get('NetworkXNoPath')
-    ok = h is not None and any(isinstance(x, ast.Assign) and ast.unparse(x) == "req.blocking_reason = 'NO_PATH'" for x in h.body) and \
-        any(isinstance(x, ast.Assign) and ast.unparse(x) == 'total_path = []' for x in h.body)
+    ok = h is not None and any(isinstance(x, ast.Assign) and ast.unparse(x) == f"{REQ}.blocking_reason = 'NO_PATH'" for x in h.body) and \
+        any(isinstance(x, ast.Assign) and ast.unparse(x) == f'{result} = []' for x in h.body)
     ctx.check('R2.outcomes', f'{s} no path', ok, key(f, 'no-path'), "no path in the topology does not give blocking reason 'NO_PATH' and an empty path")
     h = hs.get('StopIteration')
     ok = False
@@ -91,26 +113,24 @@ def r2_outcomes(ctx):
         ifs = [x for x in h.body if isinstance(x, ast.If)]
         if len(ifs) == 1:
             test = ast.unparse(ifs[0].test)
-            loose_arm, strict_arm = (ifs[0].body, ifs[0].orelse) if test == "'STRICT' not in req.loose_list[:-1]" else \
-                ((ifs[0].orelse, ifs[0].body) if test == "'STRICT' in req.loose_list[:-1]" else (None, None))
+            loose_arm, strict_arm = (ifs[0].body, ifs[0].orelse) if test == f"'STRICT' not in {REQ}.loose_list[:-1]" else \
+                ((ifs[0].orelse, ifs[0].body) if test == f"'STRICT' in {REQ}.loose_list[:-1]" else (None, None))
             if loose_arm is not None:
                 dj = [c for x in loose_arm for c in ast.walk(x) if isinstance(c, ast.Call) and getattr(c.func, 'id', '') == 'dijkstra_path']
                 a_ok = len(dj) == 1 and isinstance(getattr(dj[0], '_parent', None), ast.Assign) and \
-                    ast.unparse(dj[0]._parent.targets[0]) == 'total_path' and \
+                    ast.unparse(dj[0]._parent.targets[0]) == result and \
                     not any('blocking_reason' in ast.unparse(x) for x in loose_arm)
-                b_ok = any(ast.unparse(x) == "req.blocking_reason = 'NO_PATH_WITH_CONSTRAINT'" for x in strict_arm) and \
-                    any(ast.unparse(x) == 'total_path = []' for x in strict_arm)
+                b_ok = any(ast.unparse(x) == f"{REQ}.blocking_reason = 'NO_PATH_WITH_CONSTRAINT'" for x in strict_arm) and \
+                    any(ast.unparse(x) == f'{result} = []' for x in strict_arm)
                 ok = a_ok and b_ok
     ctx.check('R2.outcomes', f'{s} constraint not satisfiable', ok, key(f, 'loose-strict'),
               "when no path crosses the include nodes: with only LOOSE hops the unconstrained shortest path must be returned, with any "
               "STRICT hop the request must be blocked with 'NO_PATH_WITH_CONSTRAINT' and an empty path")
     rets = sorted([n for n in walk_no_nested(f.node) if isinstance(n, ast.Return)], key=lambda n: n.lineno)
-    ok = bool(rets) and ast.unparse(rets[-1].value) == 'total_path'
+    ok = bool(rets) and result is not None and ast.unparse(rets[-1].value) == result
     ctx.check('R2.outcomes', f'{s} result', ok, key(f, 'result'), 'the function does not return the path selected above')
     # the include list handed to ispart is built from the request's nodes (without the destination), in order
-    lp = [n for n in walk_no_nested(f.node) if isinstance(n, ast.For) and 'req.nodes_list[:-1]' in ast.unparse(n.iter)]
-    ok = bool(lp) and 'nodes_list.append(' in ast.unparse(lp[0]) and 'el.uid == node' in ast.unparse(lp[0])
-    ctx.check('R2.outcomes', f'{s} include list', ok, key(f, 'include-list'),
+    ctx.check('R2.outcomes', f'{s} include list', incl is not None, key(f, 'include-list'),
               'the include list is not the request\'s nodes_list (destination excluded) resolved to network elements in order')
     ctx.need('R2.outcomes', 5)
 
@@ -183,7 +203,10 @@ def r4_route_lists(ctx):
                   f'the enumeration index {idx} of a snapshot is used to delete from a live list that shrinks during the loop',
                   '; '.join(ast.unparse(b) for b in bad))
         snap = ast.unparse(lp.iter.args[0])
-        ctx.check('R4.route-lists', f'{site(f, lp)} iterates a copy', snap.startswith('temp.') or 'copy' in snap or 'list(' in snap,
+        root = snap.split('.')[0]
+        is_copy = any(isinstance(n, ast.Assign) and ast.unparse(n.targets[0]) == root and isinstance(n.value, ast.Call) and
+                      ast.unparse(n.value.func) in ('deepcopy', 'copy', 'copy.deepcopy', 'copy.copy') for n in walk_no_nested(f.node))
+        ctx.check('R4.route-lists', f'{site(f, lp)} iterates a copy', is_copy or 'copy' in snap or 'list(' in snap,
                   key(f, 'iterate-copy'), 'the route list is edited while it is being iterated', snap)
     ctx.need('R4.route-lists', 5)
 
@@ -201,30 +224,74 @@ def r5_helpers(ctx):
     if ok:
         v = lp[0].target.id
         tests = [ast.unparse(n.test) for n in walk_no_nested(lp[0]) if isinstance(n, ast.If)]
-        ok = f'{v} in {b}' in tests and any(t.replace(' ', '') in (f'{b}.index({v})>=j', f'j<={b}.index({v})') for t in tests) and \
-            any(isinstance(n, ast.Assign) and ast.unparse(n) == f'j = {b}.index({v})' for n in walk_no_nested(lp[0]))
+        js = [n.targets[0].id for n in walk_no_nested(lp[0]) if isinstance(n, ast.Assign) and isinstance(n.targets[0], ast.Name) and
+              ast.unparse(n.value) == f'{b}.index({v})']
+        j = js[0] if len(set(js)) == 1 else None
+        ok = j is not None and f'{v} in {b}' in tests and any(t.replace(' ', '') in (f'{b}.index({v})>={j}', f'{j}<={b}.index({v})') for t in tests) and \
+            any(isinstance(n, ast.Assign) and ast.unparse(n) == f'{j} = 0' for n in f.node.body)
     ctx.check('R5.helpers', site(f), bool(ok), key(f, 'ispart'),
               'ispart does not reject (False) a missing element or an element met before the previous one, and accept (True) only '
               'after all elements were checked')
+    from ..pattern import find, mstmt, mexpr, bound_by
     f = repo.func(RQ, 'find_reversed_path')
-    txt = ast.unparse(f.node)
-    ok = 'reversed_path = [pth[-1]]' in txt and 'reversed_path.append(pth[0])' in txt and 'el.oms.reversed_oms for el in pth' in txt \
-        and 'reversed(' in txt and any(isinstance(n, ast.Raise) for n in walk_no_nested(f.node)) and 'reversed_path.extend(oms.el_list)' in txt
-    g = CFG(f.node)
+    P = f.params[0]
+    ok = False
+    start = [b for n in f.node.body for b in [mstmt(f'V_r = [{P}[-1]]', n)] if b]
+    if len(start) == 1:
+        r = start[0]['V_r']
+        ends_ = any(mstmt(f'{r}.append({P}[0])', n) is not None for n in f.node.body)
+        lps = [n for n in f.node.body if isinstance(n, ast.For) and isinstance(n.iter, ast.Name) and isinstance(n.target, ast.Name)]
+        ok = ends_ and len(lps) == 1
+        if ok:
+            o, src = lps[0].target.id, lps[0].iter.id
+            ext = find(f'{r}.extend({o}.el_list)', lps[0])
+            guard = [n for n in lps[0].body if isinstance(n, ast.If) and ast.unparse(n.test) in (f'{o} is not None', f'{o} is None')]
+            sdef = [n for n in f.node.body if isinstance(n, ast.Assign) and ast.unparse(n.targets[0]) == src]
+            ok = len(ext) == 1 and len(guard) == 1 and any(isinstance(n, ast.Raise) for n in ast.walk(guard[0])) and len(sdef) == 1 and \
+                bool(find(f'[V_e.oms.reversed_oms for V_e in {P} if E_c]', sdef[0])) and bool(find('reversed(E_x)', sdef[0]))
+            rets = [n for n in walk_no_nested(f.node) if isinstance(n, ast.Return)]
+            ok = ok and len(rets) == 1 and ast.unparse(rets[0].value) == r
     ctx.check('R5.helpers', site(f), ok, key(f, 'reversed'),
               'the reverse path does not start at the last and end at the first element of the forward path, going through the reverse '
               'OMS of every crossed OMS in reverse order (and failing when one has no reverse)')
     f = repo.func(RQ, 'explicit_path')
-    txt = ast.unparse(f.node)
-    ok = 'path_oms[0].el_list[0] == source_roadm and path_oms[-1].el_list[-1] == destination_roadm' in txt and \
-        'if not is_adjacent(oms0, oms):' in txt and 'path = [source] + oms0.el_list' in txt and 'path.append(destination)' in txt
+    NL, SRC, DST, NET = f.params[:4]
+    ok = False
+    collect = [b for n in f.node.body if isinstance(n, ast.For)
+               for b in [mstmt(f"for V_e in {NL}:\n    if hasattr(V_e, 'oms'):\n        V_po.append(V_e.oms)", n)] if b]
+    if len(collect) == 1:
+        po = collect[0]['V_po']
+        sr = [nm for nm, _, _ in bound_by(f.node, f'V_n if isinstance(V_n, Roadm) else {SRC}')]
+        dr = [nm for nm, _, _ in bound_by(f.node, f'V_n if isinstance(V_n, Roadm) else {DST}')]
+        ok = len(sr) == 1 and len(dr) == 1
+        if ok:
+            sn = [b for _, _, b in bound_by(f.node, f'V_n if isinstance(V_n, Roadm) else {SRC}')][0]['V_n']
+            dn = [b for _, _, b in bound_by(f.node, f'V_n if isinstance(V_n, Roadm) else {DST}')][0]['V_n']
+            ok = bool(bound_by(f.node, f'next({NET}.successors({SRC}))')) and bound_by(f.node, f'next({NET}.successors({SRC}))')[0][0] == sn and \
+                bool(bound_by(f.node, f'next({NET}.predecessors({DST}))')) and bound_by(f.node, f'next({NET}.predecessors({DST}))')[0][0] == dn
+            edge = find(f'if not ({po}[0].el_list[0] == {sr[0]} and {po}[-1].el_list[-1] == {dr[0]}):\n    return None', f.node)
+            ok = ok and len(edge) == 1
+            first = [b for n in f.node.body for b in [mstmt(f'V_o0 = {po}[0]', n)] if b]
+            ok = ok and len(first) == 1
+            if ok:
+                o0 = first[0]['V_o0']
+                pth = [b for n in f.node.body for b in [mstmt(f'V_p = [{SRC}] + {o0}.el_list', n)] if b]
+                lp = [b for n in f.node.body if isinstance(n, ast.For) for b in [mstmt(
+                    f'for V_o in {po}[1:]:\n    if not is_adjacent({o0}, V_o):\n        return None\n    {o0} = V_o\n    V_p.extend(V_o.el_list)', n)] if b]
+                ok = len(pth) == 1 and len(lp) == 1 and lp[0]['V_p'] == pth[0]['V_p'] and \
+                    any(mstmt(f"{pth[0]['V_p']}.append({DST})", n) is not None for n in f.node.body)
+                rets = [n for n in f.node.body if isinstance(n, ast.Return)]
+                ok = ok and bool(rets) and ast.unparse(rets[-1].value) in (f"unique_ordered({pth[0]['V_p']})", pth[0]['V_p']) if ok else False
     nones = [n for n in walk_no_nested(f.node) if isinstance(n, ast.Return) and isinstance(n.value, ast.Constant) and n.value.value is None]
-    ctx.check('R5.helpers', site(f), ok and len(nones) >= 4, key(f, 'explicit'),
+    ctx.check('R5.helpers', site(f), bool(ok) and len(nones) >= 4, key(f, 'explicit'),
               'explicit_path accepts an include list whose OMS do not start at the source ROADM, end at the destination ROADM or '
               'are not pairwise adjacent')
     cc = repo.func(RQ, 'compute_constrained_path')
     ep = calls_to(cc, {'explicit_path'})
-    ok = len(ep) == 1 and [ast.unparse(a) for a in ep[0].args] == ['nodes_list', 'source', 'destination', 'network']
+    ends = endpoints(cc)
+    incl = [b['V_nl'] for lp in walk_no_nested(cc.node) if isinstance(lp, ast.For) for b in [mstmt(
+        f'for V_node in {cc.params[1]}.nodes_list[:-1]:\n    V_nl.append(next((V_e for V_e in {cc.params[0]} if V_e.uid == V_node)))', lp)] if b]
+    ok = len(ep) == 1 and len(incl) == 1 and [ast.unparse(a) for a in ep[0].args] == [incl[0], ends.get('source'), ends.get('destination'), cc.params[0]]
     ctx.check('R5.helpers', f'{site(cc)} explicit route first', ok, key(cc, 'explicit-call'),
               'the explicit route shortcut is not computed from the resolved include list and the request endpoints')
     ctx.need('R5.helpers', 4)
